@@ -289,6 +289,21 @@ func runShard(pl Plan, shard, nshard int, outPath, curPath string, deadline time
 					report(map[string]string{"fs": p.FS, "prog": p.Template(), "kind": "conc-invariant", "what": StripDetail(b)}, replay())
 				}
 			case OrReturns:
+				if o.Horizon {
+					// a call still running after 4096 scheduling points while nothing
+					// else can run: it loops (every iteration takes a lock)
+					var running []string
+
+					for _, r := range o.Recs {
+						if r.Ret < 0 && r.Inv >= 0 {
+							running = append(running, r.Call)
+						}
+					}
+
+					sort.Strings(running)
+					report(map[string]string{"fs": p.FS, "prog": p.Template(), "kind": "livelock", "blocked": strings.Join(running, " & ")}, replay())
+				}
+
 				if o.Deadlock {
 					var blocked []string
 
